@@ -83,12 +83,19 @@ def make_listener_class(mask, events, tag, ctx, base_mask=0):
     def refrash(self, searchData):
         events.append({"l": tag, "cb": "refrash", "op": ctx["op"]})
     impls = [before, end, stop, refrash]
+    if ctx.get("eq_all"):
+        # listeners that define value equality (e.g. dataclasses): two DISTINCT listener objects may compare equal
+        impls_eq = {"__eq__": lambda self, other: True, "__hash__": lambda self: 7}
+    else:
+        impls_eq = {}
     base_mask &= mask
     if base_mask:
         mid = type(f"B{base_mask}_{tag}", (Listener,), {CB[i]: impls[i] for i in range(4) if base_mask >> i & 1})
         leaf = {CB[i]: impls[i] for i in range(4) if (mask & ~base_mask) >> i & 1}
+        leaf.update(impls_eq)
         return type(f"L{mask}_{tag}", (mid,), leaf)
     body = {CB[i]: impls[i] for i in range(4) if mask >> i & 1}
+    body.update(impls_eq)
     return type(f"L{mask}_{tag}", (Listener,), body)
 
 
@@ -193,6 +200,8 @@ def gen_case_a(r, idx):
     if r.random() < 0.3:
         # some callbacks are inherited from an intermediate class instead of being defined in the listener's own class
         case["via"] = [r.randrange(16) for _ in masks]
+    if len(masks) >= 2 and r.random() < 0.3:
+        case["eq_all"] = True       # the listeners define __eq__ (all compare equal): each must still be attached and notified
     if r.random() < 0.02:
         # a LONG run with a passive listener (hundreds of trials, so that the record is a long chain of linked items)
         n2 = 2
@@ -215,7 +224,7 @@ def run_case_a(case):
     bprob, bsv = make_solver(case)
     prob, sv = make_solver(case)
     events = []
-    ctx = {"problem": prob, "solver": sv, "op": -1}
+    ctx = {"problem": prob, "solver": sv, "op": -1, "eq_all": bool(case.get("eq_all"))}
     for j, mask in enumerate(case["masks"]):
         try:
             sv.AddListener(make_listener_class(mask, events, j, ctx, (case.get("via") or [0] * 8)[j])())
